@@ -380,6 +380,11 @@ pub fn replay(path: &str) -> i32 {
             let p: lit::Prog = serde_json::from_value(v["program_json"].clone()).expect("program_json");
             fam_lit::judge(prop, &p, &mut rec, true, 1);
         }
+        "iso" | "diff" | "statics_idx" => {
+            // these families are replayed by job index: the job is a deterministic function of (tier, seed, idx)
+            let tier = if v["tier"].as_str() == Some("thorough") { 1 } else { 0 };
+            rec = work(family, prop, tier, v["seed"].as_u64().unwrap_or(0), v["idx"].as_u64().unwrap_or(0) as usize);
+        }
         "sync" => {
             let p: sync::SProg = serde_json::from_value(v["program_json"].clone()).expect("program_json");
             fam_sync::judge(prop, &p, &mut rec, 1, true);
